@@ -1202,6 +1202,16 @@ pub fn trace(kind: Ev, obj: u32, a: u64, b: u64) {
                     a,
                     b,
                 });
+                // development aid: dump the tail of a run that will not end
+                if i.trace.len() == 400_000 {
+                    if let Ok(p) = std::env::var("VERIF_DUMP_STORM") {
+                        let mut out = String::new();
+                        for e in i.trace.iter().skip(i.trace.len() - 3000) {
+                            out.push_str(&format!("{} {:?} {} {} {}\n", e.t_us, e.kind, e.obj, e.a, e.b));
+                        }
+                        let _ = std::fs::write(p, out);
+                    }
+                }
             }
         }
     })
